@@ -335,6 +335,8 @@ class CallMixin(object):
             return num.isnan(ctx.to_float(args[0]))
         if name == "finite":
             x = ctx.to_float(args[0])
+            if num.name == "R":
+                return True   # model R: floats are (finite) reals
             return z3.And(z3.Not(num.isinf(x)), z3.Not(num.isnan(x)))
         if name == "is_int":
             return num.is_int(ctx.to_float(args[0]))
